@@ -33,10 +33,25 @@
 //     randomised backoff) + 250 ms after the call started, later than 100 ms
 //     after cancel() / Shutdown() returned, or at all when the context was
 //     cancelled before the call;
-//   - a partial success => nil result and exactly one handled error carrying
-//     the message and the rejected count;
+//   - a partial success => nil result and, when the partial-success message
+//     carries a rejected count > 0 and/or an error_message (all six
+//     combinations of count {0, >0} x message {text, text with printf verbs,
+//     absent} are generated), exactly one handled error carrying that text
+//     verbatim and that count; a message with neither field says nothing and
+//     is recorded as a class only;
 //   - Export returns within everything the script can legitimately cost plus
-//     10 s ("export_blocked_beyond_budget").
+//     10 s ("export_blocked_beyond_budget");
+//   - once the export context has ended (cancelled before the call, deadline
+//     already passed before the call, deadline DeadlineMS after the call
+//     started, cancelled while an attempt is held / after an answer) Export is
+//     back: "blocks_beyond_context" when it is still running 10 s later (the
+//     case is abandoned there, the run goes on), "returns_late_after_context_end"
+//     when it came back more than 2 s later in three quiet runs; no attempt
+//     arrives more than 100 ms after the deadline (three quiet runs). These
+//     hold for EVERY retry configuration: InitialInterval / MaxInterval /
+//     MaxElapsedTime are drawn from {0, 1 ns, 1 us, ms, 1 h, 2^62 ns, MaxInt64 ns}
+//     (Initial > Max, no back-off at all, limits that never bite) while the
+//     collector goes on answering retryable outcomes for ever (Case.Endless).
 //
 // With a short exporter timeout (100 / 200 ms, only generated together with
 // held requests) an OTLP/HTTP client may give up on an attempt while the
@@ -88,6 +103,7 @@ import (
 	"bytes"
 	"context"
 	"fmt"
+	"math"
 	"runtime"
 	"strconv"
 	"strings"
@@ -119,6 +135,15 @@ type Step struct {
 	RetryInfoMS int    `json:"retry_info_ms"`         // gRPC RetryInfo detail, -1 = absent
 	DelayMS     int    `json:"delay_ms,omitempty"`
 	Rejected    int64  `json:"rejected,omitempty"`
+	// Msg (kind partial): shape of the error_message of the partial-success message.
+	//   ""        a run-unique text (tag + step)
+	//   empty     no error_message at all (legal: the field is optional; with Rejected > 0 the
+	//             rejection still has to be reported, with Rejected == 0 the message says nothing)
+	//   percent   the run-unique text followed by printf verbs (the text is data, not a format)
+	Msg string `json:"msg,omitempty"`
+	// ExtraDetails (gRPC failure statuses): number of other status details (ErrorInfo, DebugInfo)
+	// that precede the RetryInfo detail - or stand alone when RetryInfoMS < 0.
+	ExtraDetails int `json:"extra_details,omitempty"`
 }
 
 // Case is one export against one scripted collector.
@@ -160,6 +185,79 @@ type Case struct {
 	AgeMS          int    `json:"age_ms,omitempty"`
 	Warmup         bool   `json:"warmup,omitempty"`
 	InterfereK     int    `json:"interfere_k,omitempty"`
+	// InitialNS / MaxIntervalNS / MaxElapsedNS are ADDED to the millisecond fields: they carry
+	// the degenerate-but-legal retry configurations (0 ms + 1 ns, 0 ms + MaxInt64 ns, ...).
+	InitialNS     int64 `json:"initial_ns,omitempty"`
+	MaxIntervalNS int64 `json:"max_interval_ns,omitempty"`
+	MaxElapsedNS  int64 `json:"max_elapsed_ns,omitempty"`
+	// Endless: the collector keeps answering with the script's last step (a retryable answer)
+	// for every request beyond the script; only the context / MaxElapsedTime ends such an export.
+	Endless bool `json:"endless,omitempty"`
+	// DeadlineMS (plan deadline): the export context expires that long after the call started.
+	DeadlineMS int `json:"deadline_ms,omitempty"`
+}
+
+// satAdd adds durations, saturating instead of wrapping around.
+func satAdd(a time.Duration, bs ...time.Duration) time.Duration {
+	for _, b := range bs {
+		if b > 0 && a > math.MaxInt64-b {
+			return math.MaxInt64
+		}
+		a += b
+	}
+	return a
+}
+
+func msNS(ms int, ns int64) time.Duration {
+	return satAdd(time.Duration(ms)*time.Millisecond, time.Duration(ns))
+}
+
+func (c Case) initial() time.Duration     { return msNS(c.InitialMS, c.InitialNS) }
+func (c Case) maxInterval() time.Duration { return msNS(c.MaxIntervalMS, c.MaxIntervalNS) }
+func (c Case) maxElapsed() time.Duration  { return msNS(c.MaxElapsedMS, c.MaxElapsedNS) }
+
+// oneBackoff is the longest single back-off wait of the configuration: the
+// randomised interval is at most 1.5 x the current interval, which starts at
+// InitialInterval (also when that exceeds MaxInterval) and is capped by
+// MaxInterval afterwards.
+func (c Case) oneBackoff() time.Duration {
+	m := c.initial()
+	if x := c.maxInterval(); x > m {
+		m = x
+	}
+	if m > math.MaxInt64/3*2 {
+		return math.MaxInt64
+	}
+	return m/2*3 + 2
+}
+
+// stepAt is the scripted answer to the n-th request (see collector.stepAt).
+func (c Case) stepAt(n int) (Step, bool) {
+	if n >= 0 && n < len(c.Script) {
+		return c.Script[n], true
+	}
+	if c.Endless && len(c.Script) > 0 && n >= len(c.Script) && n < maxLog {
+		return c.Script[len(c.Script)-1], true
+	}
+	return Step{}, false
+}
+
+// hugeBackoff: a back-off wait of this configuration may be so long that only
+// the end of the context ends it.
+func (c Case) hugeBackoff() bool {
+	return c.RetryEnabled && (c.initial() > 5*time.Second || c.maxInterval() > 5*time.Second)
+}
+
+// unlimited: no MaxElapsedTime at all.
+func (c Case) unlimited() bool { return c.maxElapsed() == 0 }
+
+// ctxPlan: the plan ends the export context (as opposed to shutting the exporter down).
+func ctxPlan(p string) bool {
+	switch p {
+	case "pre_cancelled", "pre_expired", "deadline", "cancel_in_attempt", "cancel_in_wait":
+		return true
+	}
+	return false
 }
 
 const (
@@ -174,6 +272,10 @@ const (
 	shutdownGrace   = 50 * time.Millisecond
 	budgetMargin    = 100 * time.Millisecond // "well inside MaxElapsedTime" for gave_up_although_budget_allows
 	abortSlack      = 3 * time.Second        // Shutdown deadline + this: Shutdown and the aborted Export must both be back
+	// lateReturn: once the context has ended nothing is left to wait for (an
+	// attempt in flight is aborted, a wait is over): Export is back within
+	// milliseconds. Later than this (in three quiet runs) it "blocks beyond that".
+	lateReturn = 2 * time.Second
 )
 
 // ---------------------------------------------------------------------
@@ -184,8 +286,15 @@ var (
 	handlerOnce sync.Once
 	handledMu   sync.Mutex
 	handled     []string
+	untagged    []string // reports that carry no run tag (partial success without an error_message)
 	runSeq      atomic.Int64
 )
+
+func resetUntagged() {
+	handledMu.Lock()
+	untagged = nil
+	handledMu.Unlock()
+}
 
 func installHandler() {
 	handlerOnce.Do(func() {
@@ -194,12 +303,17 @@ func installHandler() {
 				return
 			}
 			s := err.Error()
+			handledMu.Lock()
+			defer handledMu.Unlock()
 			if !strings.Contains(s, "c14-r") {
+				// a report without any run tag: kept for the run in progress (one
+				// case runs at a time in this process) if it speaks of a rejection
+				if strings.Contains(s, "rejected") && len(untagged) < 256 {
+					untagged = append(untagged, s)
+				}
 				return
 			}
-			handledMu.Lock()
 			handled = append(handled, s)
-			handledMu.Unlock()
 		}))
 	})
 }
@@ -219,6 +333,8 @@ func handledWith(tag string) []string {
 		keep = keep[len(keep)-64:]
 	}
 	handled = keep
+	out = append(out, untagged...)
+	untagged = nil
 	return out
 }
 
@@ -320,6 +436,9 @@ func (g *genCtx) retryInfo(t *rapid.T) int {
 	}
 }
 
+// extraDetails: how many other details precede the RetryInfo (mostly none).
+func extraDetails(t *rapid.T) int { return oneOf(t, "extra_details", 0, 0, 0, 0, 1, 2) }
+
 func (g *genCtx) retryableStep(t *rapid.T) Step {
 	if g.grpc {
 		if rng(t, "resource_exhausted", 0, 6) == 0 {
@@ -327,9 +446,9 @@ func (g *genCtx) retryableStep(t *rapid.T) Step {
 			if ri < 0 {
 				ri = 0
 			}
-			return Step{Kind: "status", Code: int(codes.ResourceExhausted), RetryInfoMS: ri}
+			return Step{Kind: "status", Code: int(codes.ResourceExhausted), RetryInfoMS: ri, ExtraDetails: extraDetails(t)}
 		}
-		return Step{Kind: "status", Code: int(oneOf(t, "code", grpcRetryCodes...)), RetryInfoMS: g.retryInfo(t)}
+		return Step{Kind: "status", Code: int(oneOf(t, "code", grpcRetryCodes...)), RetryInfoMS: g.retryInfo(t), ExtraDetails: extraDetails(t)}
 	}
 	return Step{Kind: "status", Code: oneOf(t, "code", httpRetryCodes...), RetryAfter: g.retryAfter(t, true), RetryInfoMS: -1}
 }
@@ -359,14 +478,17 @@ func (g *genCtx) anyStatus(t *rapid.T) Step {
 			code = oneOf(t, "code", 17, 99) // not a defined codes.Code: not in the retryable table
 		}
 		ri := g.retryInfo(t)
-		return Step{Kind: "status", Code: code, RetryInfoMS: ri}
+		return Step{Kind: "status", Code: code, RetryInfoMS: ri, ExtraDetails: extraDetails(t)}
 	}
 	code := genHTTPStatus(t)
 	return Step{Kind: "status", Code: code, RetryAfter: g.retryAfter(t, httpRetryable(code)), RetryInfoMS: -1}
 }
 
 func (g *genCtx) partialStep(t *rapid.T) Step {
-	st := Step{Kind: "partial", RetryInfoMS: -1, Rejected: oneOf[int64](t, "rejected", 7000001, 7000013, 1<<40)}
+	// the partial-success message has two optional fields: every combination of
+	// count {0, > 0} x error_message {text, text with printf verbs, absent}
+	st := Step{Kind: "partial", RetryInfoMS: -1, Rejected: oneOf[int64](t, "rejected", 7000001, 7000013, 1<<40, 0)}
+	st.Msg = oneOf(t, "partial_msg", "", "", "", "empty", "empty", "percent")
 	if !g.grpc {
 		st.Code = 200
 	}
@@ -454,6 +576,129 @@ func (g *genCtx) innerStep(t *rapid.T) Step {
 	}
 }
 
+// genSmallIntervals draws InitialInterval and MaxInterval independently from
+// {0, 1 ns, 1 us, a few ms}: zero and tiny delays, Initial > Max, Max == 0.
+func genSmallIntervals(t *rapid.T, c *Case) {
+	c.InitialMS, c.InitialNS, c.MaxIntervalMS, c.MaxIntervalNS = 0, 0, 0, 0
+	switch pick(t, "initial_interval", 40, 15, 15, 15, 15) {
+	case 1:
+		c.InitialNS = 1
+	case 2:
+		c.InitialNS = 1000
+	case 3:
+		c.InitialMS = 1
+	case 4:
+		c.InitialMS = 8
+	}
+	switch pick(t, "max_interval", 35, 15, 15, 20, 15) {
+	case 1:
+		c.MaxIntervalNS = 1
+	case 2:
+		c.MaxIntervalNS = 1000
+	case 3:
+		c.MaxIntervalMS = 5
+	case 4:
+		c.MaxIntervalMS = 1
+	}
+}
+
+// genContextEnd: "gives up with an error once ... the context is cancelled ...,
+// never blocks beyond that", for every retry configuration. The export context
+// ends (cancelled before the call, deadline already in the past, deadline
+// DeadlineMS after the call started, cancelled while attempt K is held or after
+// answer K) while the collector would go on answering retryable outcomes for
+// ever (Endless) - the end of the context is the only thing that is certain to
+// end the export. Retry configuration: InitialInterval from {0 (half), 1 ns,
+// 1 us, 1 ms, 1 h, MaxInt64 ns}, MaxInterval from {0, 1 ns, 5 ms, 1 h, MaxInt64
+// ns} (so Initial > Max and Max == 0 occur), MaxElapsedTime from {0 = none,
+// 5 s, 300 ms, 2^62 ns}.
+func genContextEnd(t *rapid.T, c *Case, g *genCtx) {
+	c.RetryEnabled = true
+	switch pick(t, "initial_interval", 50, 10, 10, 12, 9, 9) {
+	case 1:
+		c.InitialNS = 1
+	case 2:
+		c.InitialNS = 1000
+	case 3:
+		c.InitialMS = 1
+	case 4:
+		c.InitialMS = 3600000
+	case 5:
+		c.InitialNS = math.MaxInt64
+	}
+	switch pick(t, "max_interval", 40, 12, 24, 12, 12) {
+	case 1:
+		c.MaxIntervalNS = 1
+	case 2:
+		c.MaxIntervalMS = 5
+	case 3:
+		c.MaxIntervalMS = 3600000
+	case 4:
+		c.MaxIntervalNS = math.MaxInt64
+	}
+	switch pick(t, "max_elapsed", 30, 40, 15, 15) {
+	case 1:
+		c.MaxElapsedMS = 5000
+	case 2:
+		c.MaxElapsedMS = 300
+	case 3:
+		c.MaxElapsedNS = 1 << 62
+	}
+	c.Endless = rng(t, "endless", 0, 7) > 0
+	c.PlanDelayMS = rng(t, "plan_delay_ms", 0, 3)
+	if rng(t, "explicit_timeout", 0, 5) == 0 {
+		c.TimeoutMS = 30000
+	}
+	n := oneOf(t, "len", 1, 1, 2, 2, 3)
+	switch pick(t, "ctx_end", 15, 20, 35, 18, 12) {
+	case 0:
+		c.Plan = "pre_cancelled"
+	case 1:
+		c.Plan = "pre_expired"
+	case 2:
+		c.Plan = "deadline"
+		c.DeadlineMS = oneOf(t, "deadline_ms", 20, 60, 150, 300)
+	case 3:
+		c.Plan = "cancel_in_wait"
+		c.PlanK = rng(t, "plan_k", 0, n-1)
+	default:
+		c.Plan = "cancel_in_attempt"
+		c.PlanK = rng(t, "plan_k", 0, n-1)
+	}
+	if c.hugeBackoff() && (c.Plan == "cancel_in_wait" || c.Plan == "cancel_in_attempt") {
+		// the very first wait may last for ever: the cancellation is tied to the first answer
+		c.PlanK = 0
+	}
+	retryable := func() Step {
+		st := g.retryableStep(t)
+		if st.RetryInfoMS > 30 {
+			st.RetryInfoMS = 30
+		}
+		if !g.grpc && rng(t, "temporary_network_error", 0, 5) == 0 {
+			st = Step{Kind: "proxy_temporary_error", RetryInfoMS: -1}
+		}
+		return st
+	}
+	for i := 0; i < n; i++ {
+		if c.Plan == "cancel_in_attempt" && i == c.PlanK {
+			c.Script = append(c.Script, Step{Kind: "hold", RetryInfoMS: -1})
+			continue
+		}
+		c.Script = append(c.Script, retryable())
+	}
+	// the last step is what an endless collector repeats: a retryable answer
+	if last := c.Script[len(c.Script)-1]; last.Kind != "status" {
+		st := g.retryableStep(t)
+		if st.RetryInfoMS > 30 {
+			st.RetryInfoMS = 30
+		}
+		c.Script = append(c.Script, st)
+	}
+	if !c.Endless {
+		c.Script = append(c.Script, g.terminalStep(t))
+	}
+}
+
 func genCase(isGRPC bool) func(*rapid.T) Case {
 	return func(t *rapid.T) Case {
 		c := Case{Plan: "none"}
@@ -470,15 +715,30 @@ func genCase(isGRPC bool) func(*rapid.T) Case {
 			g.hinted = rng(t, "hinted", 0, 15) == 0
 		}
 
+		// fast: a back-off of a few milliseconds at most. Two thirds: 1 ms / 5 ms; one
+		// third: the degenerate-but-legal corners of RetryConfig - InitialInterval and
+		// MaxInterval each from {0, 1 ns, 1 us, some ms}, which includes Initial > Max.
+		// Where the scenario allows "no limit" (0) it also allows a MaxElapsedTime so
+		// large that it never bites (2^62 ns, MaxInt64 ns).
 		fast := func(elapsed ...int) {
 			c.RetryEnabled, c.InitialMS, c.MaxIntervalMS = true, 1, 5
 			c.MaxElapsedMS = oneOf(t, "max_elapsed_ms", elapsed...)
+			if rng(t, "degenerate_intervals", 0, 2) == 0 {
+				genSmallIntervals(t, &c)
+			}
+			if c.MaxElapsedMS == 0 && rng(t, "huge_max_elapsed", 0, 5) == 0 {
+				c.MaxElapsedNS = oneOf[int64](t, "max_elapsed_ns", 1<<62, math.MaxInt64)
+			}
 		}
 		hugeHint := 6
 		if isGRPC {
 			hugeHint = 0
 		}
-		scenario := pick(t, "scenario", 46, 10, 4, 10, 16, 14, 8, 6, 7, hugeHint)
+		scenario := pick(t, "scenario", 46, 10, 4, 10, 16, 14, 8, 6, 7, hugeHint, 24)
+		if scenario == 10 {
+			genContextEnd(t, &c, g)
+			return c
+		}
 		switch scenario {
 		case 0: // plain
 			if rng(t, "retry_disabled", 0, 6) == 0 {
@@ -486,6 +746,10 @@ func genCase(isGRPC bool) func(*rapid.T) Case {
 			} else {
 				fast(0, 0, 20, 500, 5000)
 				g.slowBias = c.MaxElapsedMS == 20 || c.MaxElapsedMS == 500
+				if rng(t, "tiny_max_elapsed", 0, 11) == 0 {
+					// a limit that is exceeded by the time the first answer is in
+					c.MaxElapsedMS, c.MaxElapsedNS = 0, oneOf[int64](t, "max_elapsed_ns", 1, 1000)
+				}
 			}
 			if rng(t, "explicit_timeout", 0, 3) == 0 {
 				c.TimeoutMS = 15000
@@ -682,6 +946,7 @@ func genCase(isGRPC bool) func(*rapid.T) Case {
 		// instead of sleeping through the hint and sending a third attempt.
 		if isGRPC && c.Plan == "none" && c.Interfere == 0 && c.AgeMS == 0 && c.RetryEnabled && c.TimeoutMS == 0 && rng(t, "hint_budget", 0, 7) == 0 {
 			c.InitialMS, c.MaxIntervalMS, c.MaxElapsedMS = 1, 5, 500
+			c.InitialNS, c.MaxIntervalNS, c.MaxElapsedNS = 0, 0, 0
 			k := rng(t, "hint_budget_len", 2, 4)
 			c.Script = nil
 			for i := 0; i < k; i++ {
@@ -739,25 +1004,54 @@ func finite(c Case) bool {
 		default:
 			return false
 		}
-		if st.DelayMS < 0 || st.DelayMS > 2000 || st.RetryInfoMS > 2000 {
+		if st.DelayMS < 0 || st.DelayMS > 2000 || st.RetryInfoMS > 2000 || st.ExtraDetails < 0 || st.ExtraDetails > 4 {
 			return false
 		}
 		if n, ok := retryAfterSeconds(st.RetryAfter); ok && n > 5 {
 			// A huge delay is only allowed with a finite budget of at most 5 s:
 			// read as seconds it exceeds the budget (the export gives up), read
 			// as nanoseconds it either exceeds it too or is a wait of < 5 s.
-			if !(c.MaxElapsedMS > 0 && c.MaxElapsedMS <= 5000) && c.RetryEnabled {
+			if !(c.maxElapsed() > 0 && c.maxElapsed() <= 5*time.Second) && c.RetryEnabled {
 				return false
 			}
 		}
 	}
-	if c.RetryEnabled && c.MaxIntervalMS > 5000 || c.RetryEnabled && c.InitialMS > 5000 {
-		if !((c.Plan == "cancel_in_wait" || c.Plan == "shutdown_abort_wait") && c.PlanK == 0) {
+	if c.InitialMS < 0 || c.InitialNS < 0 || c.MaxIntervalMS < 0 || c.MaxIntervalNS < 0 || c.MaxElapsedMS < 0 || c.MaxElapsedNS < 0 {
+		return false
+	}
+	if c.hugeBackoff() {
+		// a wait that only the end of the context (or an aborting Shutdown) ends
+		switch {
+		case (c.Plan == "cancel_in_wait" || c.Plan == "shutdown_abort_wait" || c.Plan == "cancel_in_attempt") && c.PlanK == 0:
+		case c.Plan == "pre_cancelled" || c.Plan == "pre_expired" || c.Plan == "deadline":
+		default:
 			return false
 		}
 	}
+	if c.Endless {
+		// only the context or a MaxElapsedTime of a few seconds ends the export
+		last := c.Script[len(c.Script)-1]
+		if last.Kind != "status" || !stepRetryable(exporters[c.Exporter].grpc, last) {
+			return false
+		}
+		if n, ok := retryAfterSeconds(last.RetryAfter); ok && n > 0 {
+			return false
+		}
+		if !ctxPlan(c.Plan) && c.RetryEnabled && !(c.maxElapsed() > 0 && c.maxElapsed() <= 2*time.Second) {
+			return false
+		}
+		if c.Interfere != 0 || c.Warmup || c.AgeMS != 0 || c.Life != "" {
+			return false
+		}
+	}
+	if (c.Plan == "deadline") != (c.DeadlineMS > 0) || c.DeadlineMS < 0 || c.DeadlineMS > 2000 {
+		return false
+	}
+	if (c.Plan == "cancel_in_attempt" || c.Plan == "cancel_in_wait") && (c.PlanK < 0 || c.PlanK >= len(c.Script)) {
+		return false
+	}
 	switch c.Plan {
-	case "none", "pre_cancelled", "cancel_in_attempt", "cancel_in_wait", "shutdown_in_wait":
+	case "none", "pre_cancelled", "pre_expired", "deadline", "cancel_in_attempt", "cancel_in_wait", "shutdown_in_wait":
 	case "shutdown_abort_wait", "shutdown_abort_attempt":
 		// unbounded waits / held attempts under Shutdown only where Shutdown is meant to abort them
 		if c.Exporter != "otlptracehttp" && c.Exporter != "otlptracegrpc" {
@@ -826,8 +1120,8 @@ func budget(c Case) time.Duration {
 	isGRPC := exporters[c.Exporter].grpc
 	var d time.Duration
 	wait := time.Duration(0)
-	if c.RetryEnabled && c.MaxIntervalMS <= 5000 {
-		wait = time.Duration(c.MaxIntervalMS) * time.Millisecond * 3 / 2
+	if c.RetryEnabled && !c.hugeBackoff() {
+		wait = c.oneBackoff()
 	}
 	for _, st := range c.Script {
 		d += wait
@@ -853,6 +1147,10 @@ func budget(c Case) time.Duration {
 			}
 		}
 	}
+	if c.Endless && c.RetryEnabled && !ctxPlan(c.Plan) {
+		d += c.maxElapsed() // at most 2 s, see finite
+	}
+	d += time.Duration(c.DeadlineMS) * time.Millisecond
 	return d + wait + time.Second
 }
 
@@ -866,6 +1164,8 @@ type observation struct {
 	shutdownAt       time.Duration // moment Shutdown() returned, -1 = never called / still blocked
 	shutdownCalledAt time.Duration // moment Shutdown() was called, -1 = never
 	abortOverrun     bool          // abort plan: Export was not back abortSlack after Shutdown's deadline
+	deadlineAt       time.Duration // plan deadline: moment the export context expires, -1 = no deadline
+	ctxOverrun       bool          // Export was not back blockMargin after its context had ended
 	cleanupStuck     bool          // closing the collector / the final Shutdown did not finish in time (harness side)
 	interf           []entry       // requests of the interfering exporter
 	interfErrs       []error       // results of the interfering exports
@@ -882,9 +1182,11 @@ type observation struct {
 func execute(c Case) (ob observation) {
 	installHandler()
 	ex := exporters[c.Exporter]
-	ob = observation{cancelAt: -1, shutdownAt: -1, shutdownCalledAt: -1}
+	ob = observation{cancelAt: -1, shutdownAt: -1, shutdownCalledAt: -1, deadlineAt: -1}
 	ob.tag = fmt.Sprintf("c14-r%d", runSeq.Add(1))
+	resetUntagged()
 	col := newCollector(ex.signal, ex.grpc, c.Script, ob.tag)
+	col.endless = c.Endless
 	var addr string
 	var stop func()
 	if ex.grpc {
@@ -897,8 +1199,7 @@ func execute(c Case) (ob observation) {
 	} else {
 		addr, stop = col.startHTTP()
 	}
-	rc := retryCfg{Enabled: c.RetryEnabled, Initial: time.Duration(c.InitialMS) * time.Millisecond,
-		MaxInterval: time.Duration(c.MaxIntervalMS) * time.Millisecond, MaxElapsed: time.Duration(c.MaxElapsedMS) * time.Millisecond}
+	rc := retryCfg{Enabled: c.RetryEnabled, Initial: c.initial(), MaxInterval: c.maxInterval(), MaxElapsed: c.maxElapsed()}
 	opts := handleOpts{life: c.Life, rc: rc, timeout: time.Duration(c.TimeoutMS) * time.Millisecond, gz: c.Gzip, items: c.Items, mark: markMain}
 	if c.Headers > 0 {
 		opts.headers = map[string]string{}
@@ -954,12 +1255,21 @@ func execute(c Case) (ob observation) {
 			}()
 		})
 	}
+	// ctxOver is closed blockMargin after the export context has ended: an
+	// export that is still running then "blocks beyond that" (the case is
+	// abandoned, the run goes on).
+	ctxOver := make(chan struct{})
+	var ctxOverOnce sync.Once
+	ctxEnded := func(in time.Duration) {
+		ctxOverOnce.Do(func() { time.AfterFunc(in+blockMargin, func() { close(ctxOver) }) })
+	}
 	doCancel := func() {
 		cancel()
 		t := col.now()
 		mu.Lock()
 		ob.cancelAt = t
 		mu.Unlock()
+		ctxEnded(0)
 	}
 	abortPlan := c.Plan == "shutdown_abort_wait" || c.Plan == "shutdown_abort_attempt"
 	abortCh := make(chan struct{})
@@ -1025,6 +1335,13 @@ func execute(c Case) (ob observation) {
 		cancel()
 		ob.cancelAt = col.now()
 		ob.planFired = true
+	case "pre_expired":
+		// a context whose deadline passed before the call
+		cancel()
+		ctx, cancel = context.WithDeadline(context.Background(), time.Now().Add(-time.Second))
+		<-ctx.Done()
+		ob.cancelAt = col.now()
+		ob.planFired = true
 	case "cancel_in_attempt":
 		col.onArrive = func(step int) {
 			if step == c.PlanK {
@@ -1081,6 +1398,17 @@ func execute(c Case) (ob observation) {
 		at  time.Duration
 	}
 	done := make(chan result, 1)
+	switch c.Plan {
+	case "deadline":
+		cancel()
+		dl := time.Now().Add(time.Duration(c.DeadlineMS) * time.Millisecond)
+		ctx, cancel = context.WithDeadline(context.Background(), dl)
+		ob.deadlineAt = dl.Sub(col.t0)
+		ob.planFired = true
+		ctxEnded(time.Duration(c.DeadlineMS) * time.Millisecond)
+	case "pre_cancelled", "pre_expired":
+		ctxEnded(0)
+	}
 	ob.start = col.now()
 	go func() {
 		err := h.export(ctx)
@@ -1094,6 +1422,8 @@ func execute(c Case) (ob observation) {
 	case <-limit.C:
 	case <-abortCh:
 		ob.abortOverrun = true
+	case <-ctxOver:
+		ob.ctxOverrun = true
 	}
 	// the plan's goroutine (cancel / Shutdown) is waited for, but never for long:
 	// a Shutdown that is still blocked stays "not returned" in the observation.
@@ -1167,6 +1497,8 @@ var timingKinds = map[string]bool{
 	"attempt_although_hint_exceeds_max_elapsed": true,
 	"attempt_after_cancel":                      true,
 	"attempt_after_shutdown":                    true,
+	"attempt_after_context_deadline":            true,
+	"returns_late_after_context_end":            true,
 }
 
 func describe(es []entry) string {
@@ -1174,6 +1506,12 @@ func describe(es []entry) string {
 	for i, e := range es {
 		if i > 0 {
 			sb.WriteString(" | ")
+		}
+		if len(es) > 12 && i >= 8 && i < len(es)-3 {
+			if i == 8 {
+				fmt.Fprintf(&sb, "... %d more ...", len(es)-11)
+			}
+			continue
 		}
 		fmt.Fprintf(&sb, "#%d @%.1fms %dB -> %s (%s)", i, float64(e.Arrive)/1e6, len(e.Body), e.Outcome, e.Desc)
 	}
@@ -1185,7 +1523,11 @@ func describe(es []entry) string {
 
 func evaluate(c Case, ob observation) []vk.Violation {
 	var vs []vk.Violation
+	perKind := map[string]int{}
 	bad := func(kind, format string, a ...any) {
+		if perKind[kind]++; perKind[kind] > 8 {
+			return // an endless script can show the same breakage thousands of times
+		}
 		vs = append(vs, vk.V(kind, "%s: %s; collector log: %s", c.Exporter, fmt.Sprintf(format, a...), describe(ob.entries)))
 	}
 	ex := exporters[c.Exporter]
@@ -1213,7 +1555,23 @@ func evaluate(c Case, ob observation) []vk.Violation {
 			bad("shutdown_blocked_beyond_deadline", "Shutdown had not returned %v after it was called with a deadline of %v", d+abortSlack, d)
 		}
 	}
-	if !ob.returned && !ob.abortOverrun {
+	ctxEnd := ob.cancelAt // moment the export context ended, -1 = it did not
+	if ob.deadlineAt >= 0 {
+		ctxEnd = ob.deadlineAt
+	}
+	how := map[string]string{"pre_cancelled": "was cancelled before the call", "pre_expired": "had a deadline that passed before the call",
+		"deadline": fmt.Sprintf("expired (deadline %d ms after the call started)", c.DeadlineMS)}[c.Plan]
+	if how == "" {
+		how = "was cancelled"
+	}
+	if ob.ctxOverrun {
+		// "gives up with an error once ... the context is cancelled ..., never blocks beyond that"
+		bad("blocks_beyond_context", "Export was still running %v after its context %s (retry config: InitialInterval %v, MaxInterval %v, MaxElapsedTime %v)", blockMargin, how, c.initial(), c.maxInterval(), c.maxElapsed())
+	}
+	if ob.returned && ctxEnd >= 0 && ob.ret > ctxEnd+lateReturn {
+		bad("returns_late_after_context_end", "Export returned %v after its context %s (retry config: InitialInterval %v, MaxInterval %v, MaxElapsedTime %v)", ob.ret-ctxEnd, how, c.initial(), c.maxInterval(), c.maxElapsed())
+	}
+	if !ob.returned && !ob.abortOverrun && !ob.ctxOverrun {
 		bad("export_blocked_beyond_budget", "Export did not return within the script's budget %v + %v", budget(c), blockMargin)
 	}
 	if c.Life == "shutdown_then_export" {
@@ -1225,8 +1583,8 @@ func evaluate(c Case, ob observation) []vk.Violation {
 	shortTO := c.TimeoutMS > 0 && c.TimeoutMS <= shortTimeout
 	// nothing but the scripted answers can have ended an attempt or the call
 	undisturbed := !ob.planFired && !shortTO
-	maxElapsed := time.Duration(c.MaxElapsedMS) * time.Millisecond
-	oneBackoff := time.Duration(c.MaxIntervalMS) * time.Millisecond * 3 / 2
+	maxElapsed := c.maxElapsed()
+	oneBackoff := c.oneBackoff()
 
 	// the first attempt whose payload reached the collector is the reference
 	ref := -1
@@ -1277,6 +1635,12 @@ func evaluate(c Case, ob observation) []vk.Violation {
 		if c.Plan == "pre_cancelled" {
 			bad("attempt_after_cancel", "attempt %d was sent although the context was cancelled before the call", i)
 		}
+		if c.Plan == "pre_expired" {
+			bad("attempt_after_cancel", "attempt %d was sent although the deadline of the context had passed before the call", i)
+		}
+		if ob.deadlineAt >= 0 && e.Arrive > ob.deadlineAt+slackAfter {
+			bad("attempt_after_context_deadline", "attempt %d arrived %v after the deadline of the export context (%d ms after the call started)", i, e.Arrive-ob.deadlineAt, c.DeadlineMS)
+		}
 		if i == 0 {
 			continue
 		}
@@ -1316,7 +1680,7 @@ func evaluate(c Case, ob observation) []vk.Violation {
 		// little after ob.start, hence the slack; a timing kind (reported only
 		// if three quiet runs agree).
 		if c.RetryEnabled && maxElapsed > 0 && ex.grpc && prev.Outcome == oRetryable && prev.Hint > 0 {
-			if at := prev.RespAt - ob.start; at+prev.Hint > maxElapsed+slackHintBudget {
+			if at := prev.RespAt - ob.start; at+prev.Hint > satAdd(maxElapsed, slackHintBudget) {
 				bad("attempt_although_hint_exceeds_max_elapsed", "attempt %d was sent although answer %d (%s) came %v after the call started and asked for a delay of %v: %v > MaxElapsedTime %v", i, i-1, prev.Desc, at, prev.Hint, at+prev.Hint, maxElapsed)
 			}
 		}
@@ -1326,17 +1690,17 @@ func evaluate(c Case, ob observation) []vk.Violation {
 		// permits another attempt.
 		if c.RetryEnabled && maxElapsed > 0 && !ex.grpc && prev.Outcome == oRetryable && prev.Hint > 0 && sawAnswer && prev.Step < len(c.Script) {
 			if n, ok := retryAfterSeconds(c.Script[prev.Step].RetryAfter); ok {
-				if at := prev.RespAt - ob.start; at+time.Duration(n) > maxElapsed+slackHintBudget {
+				if at := prev.RespAt - ob.start; at+time.Duration(n) > satAdd(maxElapsed, slackHintBudget) {
 					bad("attempt_although_hint_exceeds_max_elapsed", "attempt %d was sent although answer %d (%s) came %v after the call started: the delay exceeds MaxElapsedTime %v even when the value is read as nanoseconds (%v)", i, i-1, prev.Desc, at, maxElapsed, time.Duration(n))
 				}
 			}
 		}
 		if c.RetryEnabled && maxElapsed > 0 {
-			if late := e.Arrive - ob.start; late > maxElapsed+oneBackoff+slackElapsed {
-				bad("attempt_after_max_elapsed", "attempt %d arrived %v after the call started, MaxElapsedTime %v (MaxInterval %dms)", i, late, maxElapsed, c.MaxIntervalMS)
+			if late := e.Arrive - ob.start; late > satAdd(maxElapsed, oneBackoff, slackElapsed) {
+				bad("attempt_after_max_elapsed", "attempt %d arrived %v after the call started, MaxElapsedTime %v (InitialInterval %v, MaxInterval %v)", i, late, maxElapsed, c.initial(), c.maxInterval())
 			}
 		}
-		if c.Plan != "pre_cancelled" && ob.cancelAt >= 0 && e.Arrive > ob.cancelAt+slackAfter {
+		if c.Plan != "pre_cancelled" && c.Plan != "pre_expired" && ob.cancelAt >= 0 && e.Arrive > ob.cancelAt+slackAfter {
 			bad("attempt_after_cancel", "attempt %d arrived %v after cancel() returned", i, e.Arrive-ob.cancelAt)
 		}
 		if ob.shutdownAt >= 0 && e.Arrive > ob.shutdownAt+slackAfter {
@@ -1372,10 +1736,10 @@ func evaluate(c Case, ob observation) []vk.Violation {
 	if ob.err != nil && lastOK && undisturbed {
 		bad("error_result_after_success", "Export returned %q although the last answer was a success", ob.err)
 	}
-	if last != nil && last.Outcome == oRetryable && c.RetryEnabled && c.MaxElapsedMS == 0 && undisturbed {
+	if last != nil && last.Outcome == oRetryable && c.RetryEnabled && c.unlimited() && undisturbed {
 		bad("no_retry_after_retryable", "Export gave up (%v) after a retryable answer (%s) with retrying enabled and no time limit", ob.err, last.Desc)
 	}
-	if last != nil && last.Outcome == oTempNetErr && c.RetryEnabled && c.MaxElapsedMS == 0 && undisturbed {
+	if last != nil && last.Outcome == oTempNetErr && c.RetryEnabled && c.unlimited() && undisturbed {
 		bad("no_retry_after_temporary_network_error", "Export gave up (%v) after a temporary network error (%s) with retrying enabled and no time limit", ob.err, last.Desc)
 	}
 	// The budget belongs to THIS export call: if the call ended with a retryable
@@ -1386,32 +1750,54 @@ func evaluate(c Case, ob observation) []vk.Violation {
 	// time would be exceeded". Whatever the client measures for this call is at
 	// most what is measured here, so a slow machine can only make the premise
 	// false, never the conclusion wrong.
-	if last != nil && (last.Outcome == oRetryable || last.Outcome == oTempNetErr) && c.RetryEnabled && c.MaxElapsedMS > 0 && undisturbed && orderReliable {
+	if last != nil && (last.Outcome == oRetryable || last.Outcome == oTempNetErr) && c.RetryEnabled && !c.unlimited() && undisturbed && orderReliable {
 		need := oneBackoff
 		if last.Hint > need {
 			need = last.Hint
 		}
-		if spent := ob.ret - ob.start; spent+need+budgetMargin <= maxElapsed {
+		if spent := ob.ret - ob.start; satAdd(spent, need, budgetMargin) <= maxElapsed {
 			bad("gave_up_although_budget_allows", "Export gave up (%v) after a retryable outcome (%s): the whole call took %v, the next attempt was due after at most %v, MaxElapsedTime is %v", ob.err, last.Desc, spent, need, maxElapsed)
 		}
 	}
-	// partial success reporting
-	want := ""
-	var rejected int64
-	if last != nil && last.Outcome == oPartial && last.Step < len(c.Script) {
-		want = fmt.Sprintf("%s-k%d rejected", ob.tag, last.Step)
-		rejected = c.Script[last.Step].Rejected
+	// partial success reporting: "treats a success carrying a partial-success
+	// message as delivered while reporting the rejection to the error handler".
+	// The partial-success message has an optional count and an optional text:
+	// a count > 0 is a rejection whether or not a text explains it, a text is
+	// reported whatever the count; a message with neither says nothing (what
+	// the exporter does with it is recorded as a class only).
+	explains := func(e entry, h string) bool {
+		st, ok := c.stepAt(e.Step)
+		if e.Outcome != oPartial || !ok {
+			return false
+		}
+		text := partialText(ob.tag, e.Step, st.Msg)
+		if text == "" && st.Rejected == 0 {
+			return !strings.Contains(h, "c14-r")
+		}
+		return strings.Contains(h, text) && (st.Rejected == 0 || strings.Contains(h, strconv.FormatInt(st.Rejected, 10)))
 	}
+	expectReport, saysNothing := false, false
+	var want string
+	var rejected int64
+	if last != nil && last.Outcome == oPartial {
+		if st, ok := c.stepAt(last.Step); ok {
+			want, rejected = partialText(ob.tag, last.Step, st.Msg), st.Rejected
+			expectReport = want != "" || rejected != 0
+			saysNothing = !expectReport
+		}
+	}
+	shape := fmt.Sprintf("error_message %q, rejected count %d", want, rejected)
 	switch {
-	case want != "" && ob.err == nil && orderReliable:
+	case saysNothing:
+	case expectReport && ob.err == nil && orderReliable:
 		if len(ob.handled) == 0 {
-			bad("partial_success_not_reported", "no error reached the error handler for the partial success %q", want)
+			bad("partial_success_not_reported", "no error reached the error handler for the partial success (%s)", shape)
 		} else if len(ob.handled) > 1 {
 			bad("partial_success_reported_twice", "%d errors reached the error handler: %q", len(ob.handled), ob.handled)
-		} else if h := ob.handled[0]; !strings.Contains(h, want) || !strings.Contains(h, strconv.FormatInt(rejected, 10)) {
-			bad("partial_success_report_incomplete", "handled error %q lacks the message %q or the rejected count %d", h, want, rejected)
+		} else if !explains(*last, ob.handled[0]) {
+			bad("partial_success_report_incomplete", "handled error %q lacks the message or the rejected count of the partial success (%s)", ob.handled[0], shape)
 		}
-	case want != "":
+	case expectReport:
 		if len(ob.handled) > 1 {
 			bad("partial_success_reported_twice", "%d errors reached the error handler: %q", len(ob.handled), ob.handled)
 		}
@@ -1420,7 +1806,7 @@ func evaluate(c Case, ob observation) []vk.Violation {
 		for _, h := range ob.handled {
 			explained := false
 			for _, e := range es {
-				if e.Outcome == oPartial && strings.Contains(h, fmt.Sprintf("%s-k%d rejected", ob.tag, e.Step)) {
+				if explains(e, h) {
 					explained = true
 				}
 			}
@@ -1432,6 +1818,23 @@ func evaluate(c Case, ob observation) []vk.Violation {
 		bad("spurious_partial_success_report", "the error handler received %q without a partial-success answer being the final one", ob.handled)
 	}
 	return vs
+}
+
+// durClass names a duration of a retry configuration by its magnitude.
+func durClass(d time.Duration) string {
+	switch {
+	case d == 0:
+		return "0"
+	case d < time.Millisecond:
+		return "sub_ms(" + d.String() + ")"
+	case d <= 20*time.Millisecond:
+		return "ms(" + d.String() + ")"
+	case d <= 5*time.Second:
+		return d.String()
+	case d <= time.Hour:
+		return "long(" + d.String() + ")"
+	}
+	return "huge(>1h)"
 }
 
 func classify(c Case, ob observation) vk.Info {
@@ -1475,12 +1878,53 @@ func classify(c Case, ob observation) vk.Info {
 	switch {
 	case !c.RetryEnabled:
 		info.Class("retry=disabled")
-	case c.InitialMS > 5000:
+	case c.hugeBackoff():
 		info.Class("retry=huge_backoff")
 	case c.InitialMS >= 100:
 		info.Class("retry=slow_backoff")
 	default:
-		info.Class(fmt.Sprintf("retry=fast,max_elapsed=%dms", c.MaxElapsedMS))
+		info.Class(fmt.Sprintf("retry=fast,max_elapsed=%s", durClass(c.maxElapsed())))
+	}
+	if c.RetryEnabled {
+		ini, mx := c.initial(), c.maxInterval()
+		info.Class("retry:initial_interval=" + durClass(ini))
+		info.Class("retry:max_interval=" + durClass(mx))
+		info.ClassIf(ini > mx, "retry:initial_interval>max_interval")
+		info.ClassIf(ini == 0 && mx == 0, "retry:no_backoff_at_all")
+		info.ClassIf(c.MaxElapsedNS != 0, "retry:max_elapsed="+durClass(c.maxElapsed()))
+		if ctxPlan(c.Plan) && ob.planFired {
+			end := map[string]string{"pre_cancelled": "cancelled_before", "pre_expired": "expired_before", "deadline": "deadline_during"}[c.Plan]
+			if end == "" {
+				end = "cancelled_during"
+			}
+			lim := "limited"
+			if c.unlimited() || c.maxElapsed() > time.Hour {
+				lim = "unlimited"
+			}
+			info.Class(fmt.Sprintf("context_end=%s,initial_interval=%s,max_elapsed=%s", end, durClass(ini), lim))
+			info.ClassIf(ob.returned && ob.err != nil, "context_end:"+c.Exporter+"=>gave_up_with_error")
+		}
+	}
+	info.ClassIf(c.Endless, "endless_retryable_collector")
+	info.ClassIf(c.Endless && len(es) > 100, "endless_retryable_collector:more_than_100_attempts")
+	info.ClassIf(len(es) >= maxLog, "harness_collector_log_cap_reached")
+	for _, e := range es {
+		if st, ok := c.stepAt(e.Step); ok && e.Outcome == oPartial {
+			cnt, msg := "count>0", "text"
+			if st.Rejected == 0 {
+				cnt = "count=0"
+			}
+			if st.Msg != "" {
+				msg = st.Msg
+			}
+			shape := "partial_success:" + cnt + ",message=" + msg
+			info.Class(shape)
+			if st.Rejected == 0 && st.Msg == "empty" {
+				info.Class(fmt.Sprintf("%s:partial_success_without_count_and_message=>%d reports", c.Exporter, len(ob.handled)))
+			} else {
+				info.Class(c.Exporter + ":" + shape)
+			}
+		}
 	}
 	info.ClassIf(c.Gzip, "gzip")
 	info.Class(fmt.Sprintf("headers=%d", c.Headers))
@@ -1572,6 +2016,9 @@ func classify(c Case, ob observation) vk.Info {
 			info.ClassIf(ex.grpc && st.Code == int(codes.ResourceExhausted) && st.Kind != "partial" && st.RetryInfoMS < 0 && e.Outcome == oNonRetryable, "resource_exhausted_without_retryinfo")
 			info.ClassIf(ex.grpc && st.Code == int(codes.ResourceExhausted) && st.RetryInfoMS >= 0 && e.Outcome == oRetryable, "resource_exhausted_with_retryinfo")
 			info.ClassIf(st.Kind == "slow" && e.Outcome != oAbandoned, "slow_answer_delivered")
+			info.ClassIf(ex.grpc && st.ExtraDetails > 0 && st.RetryInfoMS >= 0 && e.Outcome == oRetryable, "grpc_retryinfo_after_other_details")
+			info.ClassIf(ex.grpc && st.ExtraDetails > 0 && st.RetryInfoMS >= 0 && e.Outcome == oRetryable && st.Code == int(codes.ResourceExhausted), "grpc_resource_exhausted_retryinfo_after_other_details")
+			info.ClassIf(ex.grpc && st.ExtraDetails > 0 && st.RetryInfoMS < 0 && st.Code == int(codes.ResourceExhausted) && e.Outcome == oNonRetryable, "grpc_resource_exhausted_other_details_only")
 		}
 	}
 	for o := range seen {
@@ -1581,7 +2028,7 @@ func classify(c Case, ob observation) vk.Info {
 	info.ClassIf(hintedHTTPSeconds, "retried_after_http_retry_after_seconds")
 	if len(es) > 0 && ob.returned {
 		l := es[len(es)-1]
-		info.ClassIf(l.Outcome == oRetryable && ob.err != nil && c.MaxElapsedMS > 0 && !ob.planFired, "gave_up_on_max_elapsed")
+		info.ClassIf(l.Outcome == oRetryable && ob.err != nil && !c.unlimited() && !ob.planFired, "gave_up_on_max_elapsed")
 		info.ClassIf(l.Outcome == oRetryable && ob.err != nil && ob.planFired, "gave_up_on_cancel_or_shutdown")
 		info.ClassIf(l.Outcome == oPartial && ob.err == nil, "partial_success_delivered")
 		info.ClassIf(l.Outcome == oSuccess && ob.err == nil && len(es) > 1, "success_after_retries")
@@ -1637,7 +2084,9 @@ func run(c Case) ([]vk.Violation, vk.Info) {
 	// all show them; at most six runs are spent on that. The pre-cancelled
 	// clause is causal (cancel() returned before Export was called), no clock
 	// is involved, so it needs no confirmation.
-	timing := func(v vk.Violation) bool { return timingKinds[v.Kind] && c.Plan != "pre_cancelled" }
+	timing := func(v vk.Violation) bool {
+		return timingKinds[v.Kind] && (v.Kind != "attempt_after_cancel" || c.Plan != "pre_cancelled" && c.Plan != "pre_expired")
+	}
 	suspect := map[string]int{} // kind -> quiet runs that showed it
 	any := false
 	for _, v := range vs {
@@ -1748,7 +2197,7 @@ var known = map[string]func(Case, vk.Violation) bool{
 	},
 }
 
-const ruleCommon = "one export per case against a scripted loopback collector; script of 1..7 answers, retry config {disabled, 1ms/5ms backoff with MaxElapsedTime 0/20ms/500ms/5s, 400ms backoff, 10min backoff}, " +
+const ruleCommon = "one export per case against a scripted loopback collector; script of 1..7 answers (or, ~1/6 of the cases, an ENDLESS collector that repeats a retryable answer for ever while the export context is cancelled before / expired before / expires 20..300 ms into / is cancelled during the call), retry config {disabled, 1ms/5ms backoff with MaxElapsedTime 0/20ms/500ms/5s/1ns/1us/2^62ns/MaxInt64ns, in 1/3 of those InitialInterval and MaxInterval independently from {0, 1ns, 1us, 1..8ms} (Initial > Max, Max == 0, no back-off at all), 400ms backoff, 10min / 1h / MaxInt64ns backoff ended by the context only}, partial success with count {0, >0} x error_message {text, text with printf verbs, absent}, " +
 	"exporter timeout {default, 15s/30s, 100/200ms with held requests}, exporter life cycle {New; trace: NewUnstarted->Shutdown->Start, Start twice; all: Shutdown before the export}, gzip on/off, WithHeaders with 0/1/2 pairs, exporter age (export made MaxElapsedTime(300/500ms)+150ms after construction, optionally after a first successful export on the same instance), optionally 1-2 interfering exports of another payload through a second exporter instance while the export waits for its retry, plan {none, ctx cancelled before, cancel while attempt K is held, cancel / Shutdown after answer K, and for the two trace exporters Shutdown(200/300 ms deadline) during a 10 min back-off wait / a held attempt}; " +
 	"non-trivial = the script contains a retryable answer followed by something; distinct = distinct case encodings"
 
@@ -1766,7 +2215,7 @@ func TestHTTPRetry(t *testing.T) {
 func TestGRPCRetry(t *testing.T) {
 	vk.Run(t, vk.Spec[Case]{
 		Property: "C14", Check: "grpc_retry",
-		Rule:  "otlptracegrpc / otlpmetricgrpc / otlploggrpc: answers over {OK, OK+partial success, every codes.Code 1..16 and the undefined 17 / 99, slow, held} x RetryInfo {absent, 0, 30ms, 300ms}; " + ruleCommon,
+		Rule:  "otlptracegrpc / otlpmetricgrpc / otlploggrpc: answers over {OK, OK+partial success, every codes.Code 1..16 and the undefined 17 / 99, slow, held} x RetryInfo {absent, 0, 30ms, 300ms} x {0, 1, 2 other status details before it}; " + ruleCommon,
 		Quick: 110, Thorough: 1300,
 		Gen: genCase(true), Run: run, Known: known,
 		CaseTimeout: 5 * time.Minute, ShrinkTime: 12 * time.Second,
